@@ -4,4 +4,5 @@ pub mod c03;
 pub mod c05;
 pub mod c06;
 pub mod c07;
+pub mod c12;
 pub mod common;
